@@ -22,11 +22,12 @@ RULE = ("(a) C08's annotated assemblies (all enzymes, chains 1-4, features on ev
         "with drawn GenBank-legal id/name "
         "([A-Za-z0-9_.-]{1,16}); (b) two-level runs through the 8 kit triples of C11: "
         "the first product is typed by the next-level class and assembled into a "
-        "generated next-level vector. Oracle: exact type CircularRecord; id/name as "
+        "generated next-level vector. Oracle: a CircularRecord (or a subclass); id/name as "
         "requested; topology circular; every supplied record's id is a token of the "
         "comment; the generated source features naming the supplied records are "
-        "exactly one per retained fragment, their spans sorted tile [0, n) without gap "
-        "or overlap, each tile's text occurs in the circular word of the plasmid its "
+        "exactly one per retained fragment, each covers one contiguous circular "
+        "stretch (a single span, or a join of pieces when it crosses the product's "
+        "origin), together they cover every nucleotide exactly once, each tile's text occurs in the circular word of the plasmid its "
         "'plasmid' qualifier names; in two-level runs every inner tile is nested in "
         "an outer tile and its text occurs in the level-0 plasmid it names. Round "
         "trip SeqIO.write/read 'genbank': same sequence (case-folded), topology "
@@ -59,10 +60,32 @@ def _plasmid_of(f):
     return v[0] if isinstance(v, list) else v
 
 
+def circular_arc(feature, n):
+    """(start, length) of the circular stretch a provenance feature covers, or
+    None if its parts do not add up to one contiguous stretch covered once.
+    A tile may be written as a single span or, when it crosses the product's
+    origin, as a join of pieces (in either order)."""
+    cover = Counter()
+    for (a, b, s) in dna.loc_parts(feature.location):
+        if b <= a or b - a > n:
+            return None
+        for i in range(a, b):
+            cover[i % n] += 1
+    if not cover or max(cover.values()) > 1:
+        return None
+    length = len(cover)
+    if length == n:
+        return (0, n)
+    starts = [i for i in cover if (i - 1) % n not in cover]
+    if len(starts) != 1:
+        return None
+    return (starts[0], length)
+
+
 def check_provenance(product, supplied, used, pid, pname, what, inner=None):
     """supplied: {id: circular word}; used: ids whose fragment is retained."""
     from moclo.record import CircularRecord
-    if type(product) is not CircularRecord:
+    if not isinstance(product, CircularRecord):
         raise Violation("TYPE", "%s: product is a %s" % (what, type(product).__name__))
     if product.id != pid or product.name != pname:
         raise Violation("ID-NAME", "%s: id/name %r/%r, requested %r/%r" % (what, product.id, product.name, pid, pname))
@@ -77,43 +100,46 @@ def check_provenance(product, supplied, used, pid, pname, what, inner=None):
     P = str(product.seq).upper()
     n = len(P)
     tiles = [f for f in product.features if c08.is_generated(f) and _plasmid_of(f) in supplied]
-    spans = []
+    arcs = []
     for f in tiles:
-        parts = dna.loc_parts(f.location)
-        if len(parts) != 1:
-            raise Violation("TILE-SHAPE", "%s: provenance feature %s is compound" % (what, f.location))
-        a, b, s = parts[0]
-        spans.append((a, b, _plasmid_of(f)))
-    spans.sort()
-    if Counter(s[2] for s in spans) != Counter(used):
+        arc = circular_arc(f, n)
+        if arc is None:
+            raise Violation("TILE-SHAPE", "%s: provenance feature %s does not cover one contiguous stretch"
+                            % (what, f.location))
+        arcs.append((arc[0], arc[1], _plasmid_of(f)))
+    arcs.sort()
+    if Counter(x[2] for x in arcs) != Counter(used):
         raise Violation("TILE-COUNT", "%s: provenance features name %r, retained fragments come from %r"
-                        % (what, sorted(s[2] for s in spans), sorted(used)))
-    pos = 0
-    for a, b, rid in spans:
-        if a != pos or b <= a:
-            raise Violation("TILING", "%s: provenance features %r do not tile [0, %d)" % (what, spans, n))
-        pos = b
+                        % (what, sorted(x[2] for x in arcs), sorted(used)))
+    cover = Counter()
+    for a, ln, rid in arcs:
+        for i in range(a, a + ln):
+            cover[i % n] += 1
         word = supplied[rid].upper()
-        if P[a:b] not in word + word or b - a > len(word):
-            raise Violation("TILE-ORIGIN", "%s: tile [%d:%d) named %r does not occur verbatim in that plasmid"
-                            % (what, a, b, rid))
-    if pos != n:
-        raise Violation("TILING", "%s: provenance features %r do not cover [0, %d)" % (what, spans, n))
+        if ln > len(word) or dna.circ_slice(P, a, ln) not in word + word:
+            raise Violation("TILE-ORIGIN", "%s: tile starting at %d (%d nt) named %r does not occur verbatim "
+                            "in that plasmid" % (what, a, ln, rid))
+    if len(cover) != n or any(v != 1 for v in cover.values()):
+        raise Violation("TILING", "%s: provenance features %r do not cover every nucleotide of [0, %d) "
+                        "exactly once" % (what, arcs, n))
     if inner is not None:
         others = [f for f in product.features if c08.is_generated(f) and _plasmid_of(f) not in supplied]
         for f in others:
             rid = _plasmid_of(f)
             if rid not in inner:
                 raise Violation("INNER-TILE", "%s: provenance feature names unknown plasmid %r" % (what, rid))
-            (a, b, s), = dna.loc_parts(f.location)
-            if not any(x <= a and b <= y for x, y, _ in spans):
-                raise Violation("INNER-TILE", "%s: inner provenance feature [%d:%d) of %r is not nested in an "
-                                "outer one %r" % (what, a, b, rid, spans))
+            arc = circular_arc(f, n)
+            if arc is None:
+                raise Violation("INNER-TILE", "%s: inner provenance feature %s is not one stretch" % (what, f.location))
+            a, ln = arc
+            if not any((a - x) % n + ln <= xl for x, xl, _ in arcs):
+                raise Violation("INNER-TILE", "%s: inner provenance feature at %d (%d nt) of %r is not nested in "
+                                "an outer one %r" % (what, a, ln, rid, arcs))
             word = inner[rid].upper()
-            if P[a:b] not in word + word:
-                raise Violation("INNER-TILE", "%s: inner tile [%d:%d) does not occur in %r" % (what, a, b, rid))
-        return len(spans), len(others)
-    return len(spans), 0
+            if dna.circ_slice(P, a, ln) not in word + word:
+                raise Violation("INNER-TILE", "%s: inner tile at %d (%d nt) does not occur in %r" % (what, a, ln, rid))
+        return len(arcs), len(others)
+    return len(arcs), 0
 
 
 def round_trip(product, what):
